@@ -147,13 +147,24 @@ func matchViaAllow(pattern, name string) bool {
 }
 
 func runC17(c *core.Ctx) {
-	patAlpha := []string{"a", "b", "/", "*", "?", "[", "]", "^", "-", "\\"}
-	nameAlpha := []string{"a", "b", "/", "-", "]"}
+	patAlpha := []string{"a", "b", "/", "*", "?", "[", "]", "^", "-", "\\", "!"}
+	nameAlpha := []string{"a", "b", "/", "-", "]", "!"}
 	pl, nl := 4, 4
 	if !c.Quick() {
 		pl, nl = 6, 5
 	}
 	names := enumStrings(nameAlpha, nl)
+	if !c.Quick() {
+		// thorough bound: '!' (added to both alphabets later than the others) up to pattern length 5 / name length 4
+		kept := names[:0]
+		for _, n := range names {
+			if len(n) == nl && strings.Contains(n, "!") {
+				continue
+			}
+			kept = append(kept, n)
+		}
+		names = kept
+	}
 	// enumerate patterns lazily by index to avoid holding 1.1M strings per worker
 	total := 0
 	pow := 1
@@ -190,6 +201,9 @@ func runC17(c *core.Ctx) {
 			}
 			cur = idxToPattern(i)
 			if c.Only != "" && c.Only[:5] == "pair:" {
+				continue
+			}
+			if !c.Quick() && len(cur) == pl && strings.Contains(cur, "!") {
 				continue
 			}
 			if i%4096 == c.Shard {
@@ -229,11 +243,11 @@ func runC17(c *core.Ctx) {
 
 	// random longer ASCII and UTF-8 patterns and names
 	nrand := c.Pick(200000, 5000000)
-	asciiP := []string{"a", "b", "c", "x", "/", ".", "*", "*", "?", "[", "]", "^", "-", "\\", "d", "0", "9", "_", "A", "B", "M"}
+	asciiP := []string{"a", "b", "c", "x", "/", ".", "*", "*", "?", "[", "]", "^", "-", "\\", "d", "0", "9", "_", "A", "B", "M", "!", ","}
 	// incl. the code points at the encoding-length boundaries and U+FFFD (a valid character whose
 	// decoded value is the decoder's error value)
 	utfP := append(append([]string{}, asciiP...), "é", "ß", "日", "本", "𝄞", "😀", "ж", "\ufffd", "\u0080", "\u07ff", "\u0800", "\uffff", "\U00010000", "\U0010ffff")
-	asciiN := []string{"a", "b", "c", "x", "/", ".", "d", "0", "9", "_", "-", "]", "[", "*", "?", "\\", "^", "A", "B", "M"}
+	asciiN := []string{"a", "b", "c", "x", "/", ".", "d", "0", "9", "_", "-", "]", "[", "*", "?", "\\", "^", "A", "B", "M", "!", ","}
 	utfN := append(append([]string{}, asciiN...), "é", "ß", "日", "本", "𝄞", "😀", "ж", "\ufffd", "\u0080", "\u07ff", "\u0800", "\uffff", "\U00010000", "\U0010ffff")
 	rmatched := int64(0)
 	for i := 0; i < nrand; i++ {
@@ -303,7 +317,7 @@ func runC17(c *core.Ctx) {
 	// escapes, stars), observed through Set.Filter AND through the MATCH rule
 	ntok := c.Pick(150000, 3000000)
 	tmatched, viaRule := int64(0), int64(0)
-	letters := []string{"a", "b", "c", ".", "/", "x", "B", "M", "é", "日", "\ufffd", "\U0010ffff"}
+	letters := []string{"a", "b", "c", ".", "/", "x", "B", "M", "é", "日", "\ufffd", "\U0010ffff", "!"}
 	for i := 0; i < ntok; i++ {
 		if !c.Mine(i) {
 			continue
@@ -373,7 +387,7 @@ func init() {
 	core.Register(&core.Property{
 		ID:    "C17",
 		Level: "exploration",
-		Rule: "exhaustive: every pattern of length<=4 (quick) / <=6 (thorough) over {a b / * ? [ ] ^ - \\} x every name of length<=4 / <=5 over {a b / - ]}, plus seeded random ASCII and valid-UTF-8 patterns<=24 / names<=40 (half of the names derived from the pattern so that matches are frequent), plus token-based random patterns (1-7 tokens from {literal, *, ?, class, negated class, range, escape} with a name derived from them; a third of these pairs is also observed through the MATCH rule of VerifyArtifacts (without and with a source prefix) and through ALLOW rules that use the pattern in both rule lists of one item); " +
+		Rule: "exhaustive: every pattern of length<=4 (quick) / <=6 (thorough) over {a b / * ? [ ] ^ - \\ !} x every name of length<=4 / <=5 over {a b / - ] !} (thorough: '!' only up to pattern length 5 / name length 4), plus seeded random ASCII and valid-UTF-8 patterns<=24 / names<=40 (half of the names derived from the pattern so that matches are frequent), plus token-based random patterns (1-7 tokens from {literal, *, ?, class, negated class, range, escape} with a name derived from them; a third of these pairs is also observed through the MATCH rule of VerifyArtifacts (without and with a source prefix) and through ALLOW rules that use the pattern in both rule lists of one item); " +
 			"observation = len(NewSet(name).Filter(pattern))==1, oracle = reference matcher written from the documented grammar; non-trivial = the pattern contains a metacharacter; distinct = enumerated pairs are distinct by construction, random pairs by hash of (pattern,name)",
 		Assumptions: []string{
 			"the reference matcher encodes the documented grammar; a negated class containing a reversed range ([^b-a]) is not judged (counted as inconclusive)",
